@@ -452,7 +452,10 @@ class Sym:
                 v = s.t.args[0]
                 return S(tm.const(Fraction(math.trunc(v)), "I"))
             # truncation toward zero of a symbolic real: fork on the integer part
-            k = fork_floor(s)
+            if explore.decide(tm.lt0(s.t)):
+                k = -fork_floor(-s)
+            else:
+                k = fork_floor(s)
             return S(tm.const(Fraction(k), "I"))
 
         return Sym(_ew(f, self.a))
